@@ -66,25 +66,30 @@ Proof.
 Qed.
 
 (* flags *)
-Lemma flags_main : forall a b, has_flag (flag a FLG_INT_LOCAL + flag b FLG_MAGLEV) FLG_INT_LOCAL = a
-  /\ has_flag (flag a FLG_INT_LOCAL + flag b FLG_MAGLEV) FLG_EXT_LOCAL = false
-  /\ has_flag (flag a FLG_INT_LOCAL + flag b FLG_MAGLEV) FLG_MAGLEV = b.
-Proof. intros [|] [|]; repeat split; reflexivity. Qed.
-Lemma flags_lb : forall m a b, has_flag (flag m FLG_MAGLEV + flag a FLG_EXT_LOCAL + flag b FLG_INT_LOCAL) FLG_EXT_LOCAL = a
-  /\ has_flag (flag m FLG_MAGLEV + flag a FLG_EXT_LOCAL + flag b FLG_INT_LOCAL) FLG_MAGLEV = m.
-Proof. intros [|] [|] [|]; split; reflexivity. Qed.
-Lemma flags_np : forall a b, has_flag (flag a FLG_EXT_LOCAL + flag b FLG_INT_LOCAL) FLG_EXT_LOCAL = a
-  /\ has_flag (flag a FLG_EXT_LOCAL + flag b FLG_INT_LOCAL) FLG_MAGLEV = false.
+Lemma flags_main : forall a b x, has_flag (flag a FLG_INT_LOCAL + flag b FLG_MAGLEV + flag x FLG_EXCLUDE) FLG_INT_LOCAL = a
+  /\ has_flag (flag a FLG_INT_LOCAL + flag b FLG_MAGLEV + flag x FLG_EXCLUDE) FLG_EXT_LOCAL = false
+  /\ has_flag (flag a FLG_INT_LOCAL + flag b FLG_MAGLEV + flag x FLG_EXCLUDE) FLG_MAGLEV = b
+  /\ has_flag (flag a FLG_INT_LOCAL + flag b FLG_MAGLEV + flag x FLG_EXCLUDE) FLG_EXCLUDE = x.
+Proof. intros [|] [|] [|]; repeat split; reflexivity. Qed.
+Lemma flags_lb : forall m a b x, has_flag (flag m FLG_MAGLEV + flag a FLG_EXT_LOCAL + flag b FLG_INT_LOCAL + flag x FLG_EXCLUDE) FLG_EXT_LOCAL = a
+  /\ has_flag (flag m FLG_MAGLEV + flag a FLG_EXT_LOCAL + flag b FLG_INT_LOCAL + flag x FLG_EXCLUDE) FLG_MAGLEV = m
+  /\ has_flag (flag m FLG_MAGLEV + flag a FLG_EXT_LOCAL + flag b FLG_INT_LOCAL + flag x FLG_EXCLUDE) FLG_EXCLUDE = x.
+Proof. intros [|] [|] [|] [|]; repeat split; reflexivity. Qed.
+Lemma flags_np : forall a b x, has_flag (flag a FLG_EXT_LOCAL + flag b FLG_INT_LOCAL + flag x FLG_EXCLUDE) FLG_EXT_LOCAL = a
+  /\ has_flag (flag a FLG_EXT_LOCAL + flag b FLG_INT_LOCAL + flag x FLG_EXCLUDE) FLG_MAGLEV = false
+  /\ has_flag (flag a FLG_EXT_LOCAL + flag b FLG_INT_LOCAL + flag x FLG_EXCLUDE) FLG_EXCLUDE = x.
+Proof. intros [|] [|] [|]; repeat split; reflexivity. Qed.
+Lemma flags_ext : forall m x, has_flag (flag m FLG_MAGLEV + flag x FLG_EXCLUDE) FLG_MAGLEV = m
+  /\ has_flag (flag m FLG_MAGLEV + flag x FLG_EXCLUDE) FLG_EXCLUDE = x.
 Proof. intros [|] [|]; split; reflexivity. Qed.
-Lemma flags_ext : forall m, has_flag (flag m FLG_MAGLEV) FLG_MAGLEV = m.
-Proof. intros [|]; reflexivity. Qed.
 
 Definition value_meets_spec (k : kind) (s : svc) (eps : list ep) (u : unit_) (fv : fval) : Prop :=
   filter e_ready (u_eps u) = wanted k eps
   /\ fv_aff fv = s_sticky s
   /\ flag_ok (ext_local_required k s) (fv_flags fv) FLG_EXT_LOCAL = true
   /\ flag_ok (int_local_required k s) (fv_flags fv) FLG_INT_LOCAL = true
-  /\ (has_flag (fv_flags fv) FLG_MAGLEV = true -> s_maglev s = true).
+  /\ (has_flag (fv_flags fv) FLG_MAGLEV = true -> s_maglev s = true)
+  /\ has_flag (fv_flags fv) FLG_EXCLUDE = s_exclude s.
 
 (* every frontend a service asks for is a frontend of one of its units, with the required endpoints and flags *)
 Lemma primary_covers : forall npips s eps u k kd,
@@ -96,28 +101,28 @@ Proof.
   unfold spec_frontends in Hin. unfold value_meets_spec. cbn [u_eps].
   destruct Hin as [Hin|Hin].
   - inversion Hin; subst. eexists. split; [left; reflexivity|].
-    destruct (flags_main (s_intlocal s) (s_maglev s && negb (u_count (U un 0 uid s eps) =? 0))) as [F1 [F2 F3]].
+    destruct (flags_main (s_intlocal s) (s_maglev s && negb (u_count (U un 0 uid s eps) =? 0)) (s_exclude s)) as [F1 [F2 [F3 F4]]].
     split; [reflexivity|]. split; [reflexivity|]. unfold mkfv. cbn [fv_flags ext_local_required int_local_required flag_ok].
-    rewrite F1, F2, F3. split; [reflexivity|]. split; [apply eqb_reflx|].
+    rewrite F1, F2, F3, F4. split; [reflexivity|]. split; [apply eqb_reflx|]. split; [|reflexivity].
     intros H. apply andb_true_iff in H. tauto.
   - apply in_app_or in Hin. destruct Hin as [Hin|Hin].
     { apply in_map_iff in Hin. destruct Hin as [a [E Ha]]. inversion E; subst.
       eexists. split; [right; apply in_or_app; left; apply in_map_iff; exists a; split; [reflexivity|auto]|].
-      destruct (flags_lb (s_maglev s) (s_extlocal s) (s_intlocal s)) as [F1 F2].
+      destruct (flags_lb (s_maglev s) (s_extlocal s) (s_intlocal s) (s_exclude s)) as [F1 [F2 F4]].
       split; [reflexivity|]. split; [reflexivity|]. unfold mkfv. cbn [fv_flags ext_local_required int_local_required flag_ok].
-      rewrite F1, F2. split; [apply eqb_reflx|]. split; auto. }
+      rewrite F1, F2, F4. split; [apply eqb_reflx|]. split; auto. }
     apply in_app_or in Hin. destruct Hin as [Hin|Hin].
     { apply in_map_iff in Hin. destruct Hin as [a [E Ha]]. inversion E; subst.
       eexists. split; [right; apply in_or_app; right; apply in_or_app; left; apply in_map_iff; exists a; split; [reflexivity|auto]|].
       split; [reflexivity|]. split; [reflexivity|]. unfold mkfv. cbn [fv_flags ext_local_required int_local_required flag_ok].
-      rewrite flags_ext. split; auto. }
+      destruct (flags_ext (s_maglev s) (s_exclude s)) as [F2 F4]. rewrite F2, F4. split; auto. }
     destruct (s_np s =? 0) eqn:NP; [contradiction|].
     apply in_app_or in Hin. destruct Hin as [Hin|Hin].
     { apply in_map_iff in Hin. destruct Hin as [a [E Ha]]. inversion E; subst.
       eexists. split; [right; apply in_or_app; right; apply in_or_app; right; apply in_map_iff; exists a; split; [reflexivity|auto]|].
-      destruct (flags_np (s_extlocal s) (s_intlocal s)) as [F1 F2].
+      destruct (flags_np (s_extlocal s) (s_intlocal s) (s_exclude s)) as [F1 [F2 F4]].
       split; [reflexivity|]. split; [reflexivity|]. unfold mkfv. cbn [fv_flags ext_local_required int_local_required flag_ok].
-      rewrite F1, F2. split; [apply eqb_reflx|]. split; auto. discriminate. }
+      rewrite F1, F2, F4. split; [apply eqb_reflx|]. split; auto. split; [discriminate|reflexivity]. }
     destruct (s_intlocal s); [|contradiction].
     apply in_map_iff in Hin. destruct Hin as [n [E _]]. inversion E; subst. exfalso. eapply NR; eauto.
 Qed.
@@ -165,8 +170,8 @@ Proof.
   assert (NZ : n <> 0) by (eapply remote_nodes_nonzero; eauto).
   exists u'. eexists. split; auto. split.
   - unfold unit_frontends. rewrite N1. apply N.eqb_neq in NZ. rewrite NZ. simpl. left. rewrite N2. simpl. reflexivity.
-  - unfold value_meets_spec. simpl. rewrite N2, N3. simpl. repeat split; auto.
-    destruct (s_intlocal s); simpl; discriminate.
+  - unfold value_meets_spec. simpl. rewrite N2, N3. simpl. repeat split; auto;
+      destruct (s_intlocal s), (s_exclude s); vm_compute; intros; try discriminate; reflexivity.
 Qed.
 
 (* conversely every frontend of a unit is one a service asks for *)
